@@ -21,4 +21,5 @@ def run(ctx, rep):
     exceptions.rule_catchable_classes(ctx, rep, "C17-R3", only_pred=_in_family, floor=1)
     builtins.rule_deliberate_errors_not_swallowed(ctx, rep, "C17-R4")
     builtins.rule_buffer_aliasing(ctx, rep, "C17-R7")
+    builtins.rule_no_stale_field_alias(ctx, rep, "C17-R8")
     rep.undecided += ["the method result tables over the argument grid (values, not shape): a runtime differential, outside static analysis"]
